@@ -1045,8 +1045,9 @@ inline bool Transport::setReadMode(SessionId sid, ReadMode mode)
       oldMode = it->second;
     }
 
-    // If NOT switching from Sync to Async, update mode directly
-    if (!(oldMode == ReadMode::Sync && mode == ReadMode::Async))
+    // If NOT switching to Async from a mode that may have left bytes in the sync
+    // buffer (Sync, or Disabled entered from Sync), update mode directly
+    if (!(oldMode != ReadMode::Async && mode == ReadMode::Async))
     {
       _impl->readModes[sid] = mode;
 
